@@ -578,6 +578,27 @@ func runCase(c Case) (res simResult) {
 			}
 		}
 	}
+	// back-off penalties on the wire: after a 429 / 403 / 408 / 425 from a host no new request (first attempt of an item)
+	// may reach that host for the minimum penalty of 5 s. Requests of the very same instant may have been released
+	// before the answer was known; retries bypass the limiter by design.
+	if c.Settings.RateLimit && len(hostsSeen) <= c.Settings.Workers*c.Settings.MaxAssets {
+		for _, f := range log {
+			if f.Status != 429 && f.Status != 403 && f.Status != 408 && f.Status != 425 {
+				continue
+			}
+			if f.Status == 403 && veriflib.FindingOpen(simKF403) {
+				veriflib.Excluded("C13/pipeline", "open finding "+simKF403)
+				continue
+			}
+			for _, g := range log {
+				if g.Host == f.Host && g.Attempt == 1 && g.Seq > f.Seq && g.AtMs > f.DoneMs && g.AtMs < f.DoneMs+5000 {
+					return fail("C13/pipeline", "host %s answered %d to %s at %d ms and received a new request (%s) at %d ms: %d ms later, the back-off penalty is at least 5 s",
+						f.Host, f.Status, f.URL, f.DoneMs, g.URL, g.AtMs, g.AtMs-f.DoneMs)
+				}
+			}
+			res.Classes = append(res.Classes, "penalised-response")
+		}
+	}
 	// ---- C17: totals and gauges
 	m := stats.GetMapTUI()
 	if v, _ := m["Finished seeds"].(uint64); int(v-base) != len(inserted) {
@@ -750,6 +771,19 @@ func TestVerif_Sim_Pipeline(t *testing.T) {
 }
 
 // Strict reproduction: stop while paused.
+// simKF403: archive() reports a 403 to the rate limiter as a success (only 5xx, 408, 425 and 429 take the failure branch).
+const simKF403 = "C13-403-not-reported-to-limiter"
+
+// Strict sub-check of the open finding: a 403 followed by another request to the same host, rate limiter on.
+func TestVerifKF_Sim_403NoPenalty(t *testing.T) {
+	c := Case{Settings: Settings{Workers: 1, MaxAssets: 1, MaxRedirect: 1, MaxRetry: 0, MaxHops: 0, Seencheck: true, RateLimit: true, RateCapacity: 1, RateRefill: 10}, Site: Site{
+		"http://s1.example.com/p1":     {Kind: "html", Assets: []string{"http://s1.example.com/e2.png", "http://s1.example.com/a3.png"}},
+		"http://s1.example.com/e2.png": {Kind: "status", Status: 403},
+		"http://s1.example.com/a3.png": {Kind: "bin"},
+	}, Seeds: []SeedPlan{{ID: "seed-1", URL: "http://s1.example.com/p1", Host: "s1.example.com"}}}
+	propSim(t, t, c, nil)
+}
+
 func TestVerifKF_Sim_StopWhilePaused(t *testing.T) {
 	c := Case{Settings: Settings{Workers: 2, MaxAssets: 1, MaxRedirect: 1, MaxRetry: 0, MaxHops: 0, Seencheck: true}, Site: Site{
 		"http://s1.example.com/p1":     {Kind: "html", Assets: []string{"http://s1.example.com/a2.png"}},
